@@ -39,7 +39,7 @@ var (
 	IDs         = []string{"a", "b", "c", "d"}
 	AbsentID    = "zz"
 	Attrs       = []string{"a", "b", "name", "na me"}
-	asciiStrs   = []string{"", "a", "alice", "na me", "a*b", "x\\y", "q\"uote", "tab\there", "new\nline", "1", "true", "User::\"a\""}
+	asciiStrs   = []string{"", "a", "alice", "na me", "a*b", "x\\y", "q\"uote", "tab\there", "new\nline", "1", "true", "User::\"a\"", "10.0.0.1", "127.0.0.1", "1.5", "1h", "2024-01-01"}
 	uniStrs     = []string{"é", "日本", "🙂", "a b", " ", "ź"}
 	longs       = []int64{0, 1, 2, -1, 3, 4, 100, 9223372036854775807, -9223372036854775808}
 	ips         = []string{"127.0.0.1", "10.0.0.0/8", "::1", "192.168.1.77", "ff00::/8", "10.1.2.3/32"}
@@ -433,26 +433,37 @@ func (g *G) recordExpr(d int, leaf bool) string {
 	return "{" + strings.Join(parts, ", ") + "}"
 }
 
+// extension constructors are applied to constants (folded when the policy is compiled) and,
+// less often, to request-dependent strings (evaluated per request by the compiled evaluator)
+func (g *G) extArg(lits []string) string {
+	switch g.T.Intn(8) {
+	case 6:
+		return access("context", g.attrName())
+	case 7:
+		return access("principal", "name")
+	}
+	return QuoteCedar(pick(g, lits))
+}
 func (g *G) ipExpr(d int) string {
 	if g.T.Intn(5) == 4 {
 		return access("context", g.attrName())
 	}
-	return "ip(" + QuoteCedar(pick(g, ips)) + ")"
+	return "ip(" + g.extArg(ips) + ")"
 }
 func (g *G) decExpr(d int) string {
 	if g.T.Intn(5) == 4 {
 		return access("context", g.attrName())
 	}
-	return "decimal(" + QuoteCedar(pick(g, decimals)) + ")"
+	return "decimal(" + g.extArg(decimals) + ")"
 }
 func (g *G) durExpr(d int) string {
 	if g.T.Intn(5) == 4 {
 		return access("context", g.attrName())
 	}
-	return "duration(" + QuoteCedar(pick(g, durations)) + ")"
+	return "duration(" + g.extArg(durations) + ")"
 }
 func (g *G) dtExpr(d int) string {
-	return "datetime(" + QuoteCedar(pick(g, datetimes)) + ")"
+	return "datetime(" + g.extArg(datetimes) + ")"
 }
 
 func (g *G) extExpr(d int, leaf bool) string {
